@@ -9,6 +9,7 @@ import (
 
 	"layeh.com/radius"
 	"layeh.com/radius/debug"
+	"layeh.com/radius/dictionary"
 )
 
 func init() {
@@ -21,6 +22,7 @@ func init() {
 type readResult struct {
 	repr   string
 	slices [][]byte // every byte slice reachable from the result (to be scribbled on)
+	strs   []string // every string of the result (a string may be a view of the packet's bytes too)
 }
 
 func gvalSlices(v gval) [][]byte {
@@ -42,11 +44,11 @@ func helperReaders(e *helperEntry) map[string]func(p, q *radius.Packet) readResu
 		if err != nil {
 			r = "err:" + err.Error()
 		}
-		return readResult{r, gvalSlices(v)}
+		return readResult{r, gvalSlices(v), nil}
 	}
 	m["Get"] = func(p, q *radius.Packet) readResult {
 		t, v := e.Get(p, q)
-		return readResult{itoa(int(t)) + ":" + showGval(e, v), gvalSlices(v)}
+		return readResult{itoa(int(t)) + ":" + showGval(e, v), gvalSlices(v), nil}
 	}
 	if e.Gets != nil {
 		m["Gets"] = func(p, q *radius.Packet) readResult {
@@ -68,13 +70,13 @@ func helperReaders(e *helperEntry) map[string]func(p, q *radius.Packet) readResu
 			if err != nil {
 				r += "!"
 			}
-			return readResult{r, sl}
+			return readResult{r, sl, nil}
 		}
 	}
 	if e.GetString != nil {
 		m["GetString"] = func(p, q *radius.Packet) readResult {
 			t, s := e.GetString(p, q)
-			return readResult{itoa(int(t)) + ":" + hx([]byte(s)), nil}
+			return readResult{itoa(int(t)) + ":" + hx([]byte(s)), nil, []string{s}}
 		}
 		m["LookupString"] = func(p, q *radius.Packet) readResult {
 			t, s, err := e.LookupString(p, q)
@@ -82,7 +84,7 @@ func helperReaders(e *helperEntry) map[string]func(p, q *radius.Packet) readResu
 			if err != nil {
 				r = "err"
 			}
-			return readResult{r, nil}
+			return readResult{r, nil, []string{s}}
 		}
 	}
 	if e.GetStrings != nil {
@@ -96,7 +98,7 @@ func helperReaders(e *helperEntry) map[string]func(p, q *radius.Packet) readResu
 			if ts != nil {
 				sl = append(sl, ts)
 			}
-			return readResult{hx([]byte(r)) + hx(ts), sl}
+			return readResult{hx([]byte(r)) + hx(ts), sl, ss}
 		}
 	}
 	return m
@@ -135,6 +137,25 @@ func purity(p, q *radius.Packet, f func(p, q *radius.Packet) readResult) string 
 			s[i] ^= 0xff
 		}
 	}
+	// the other direction, for strings: the caller edits the packet's attribute octets in place; strings
+	// handed out earlier are values and must still read as they did
+	if len(r1.strs) > 0 {
+		was := strings.Join(r1.strs, "\x00")
+		wasCopy := string(append([]byte{}, was...))
+		for _, avp := range p.Attributes {
+			for i := range avp.Attribute {
+				avp.Attribute[i] ^= 0xff
+			}
+		}
+		if strings.Join(r1.strs, "\x00") != wasCopy {
+			alias = "1"
+		}
+		for _, avp := range p.Attributes {
+			for i := range avp.Attribute {
+				avp.Attribute[i] ^= 0xff
+			}
+		}
+	}
 	return "mut=" + mut + ",rep=" + rep + ",alias=" + alias
 }
 
@@ -154,7 +175,15 @@ func evalC13(op string, args []string) string {
 		}
 		p := &radius.Packet{Code: 1, Secret: unhx(args[2])}
 		copy(p.Authenticator[:], auth)
+		// q is the request the reply answers: the helpers take its AUTHENTICATOR (and nothing else) from it;
+		// whatever secret that packet value happens to carry is not the one the attribute is hidden with
 		q := &radius.Packet{Code: 1, Secret: p.Secret}
+		switch (len(args[1]) + len(args[2])) % 3 {
+		case 1:
+			q.Secret = nil
+		case 2:
+			q.Secret = append([]byte("not-the-secret-"), p.Secret...)
+		}
 		copy(q.Authenticator[:], auth)
 		p.Attributes = toAttributes(parseAVPs(args[1]))
 		rs := helperReaders(e)
@@ -284,9 +313,20 @@ func evalC13(op string, args []string) string {
 			radius.Integer64(a)
 			radius.Short(a)
 			radius.Date(a)
-			_ = radius.String(a)
+			str := radius.String(a)
+			strWas := string(append([]byte{}, str...))
 			if snapshot(p) != snap {
 				bad = true
+			}
+			// a string result is a value: editing the attribute in place afterwards does not change it
+			for i := range a {
+				a[i] ^= 0xff
+			}
+			if str != strWas {
+				aliased = true
+			}
+			for i := range a {
+				a[i] ^= 0xff
 			}
 			for _, r := range res {
 				for i := range r {
@@ -308,6 +348,11 @@ func evalC13(op string, args []string) string {
 		debug.Dump(io.Discard, &debug.Config{Dictionary: debug.IncludedDictionary}, p)
 		d1 := debug.DumpString(&debug.Config{Dictionary: debug.IncludedDictionary}, p)
 		d2 := debug.DumpString(&debug.Config{Dictionary: debug.IncludedDictionary}, p)
+		for _, wd := range wildDictionaries() {
+			if debug.DumpString(&debug.Config{Dictionary: wd}, p) != debug.DumpString(&debug.Config{Dictionary: wd}, p) {
+				d2 = d1 + "?"
+			}
+		}
 		flag("dump-mutates-packet", snapshot(p) != snap)
 		flag("dump-not-repeatable", d1 != d2)
 		flag("input-changed-at-end", inputChanged())
@@ -420,8 +465,18 @@ func genC13(g *Gen, tier string, emit func(op string, args ...string)) {
 			p := &radius.Packet{Code: radius.Code(g.Pick(1, 2, 4, 5)), Identifier: byte(g.Intn(256)), Secret: []byte("s")}
 			copy(p.Authenticator[:], g.RandBytes(16))
 			for k := g.Range(1, 8); k > 0; k-- {
-				t := g.Pick(1, 2, 4, 5, 6, 8, 26, 30, 44, 55, 69, 79, 95, 96, 97, 168)
-				p.Add(radius.Type(t), g.RandBytes(g.Pick(0, 1, 4, 6, 8, 16, 18, 34)))
+				t := g.Pick(1, 2, 4, 5, 6, 8, 11, 18, 26, 30, 44, 55, 69, 79, 95, 96, 97, 168)
+				v := g.RandBytes(g.Pick(0, 1, 4, 6, 8, 16, 18, 34))
+				if g.Chance(1, 4) && len(v) > 0 {
+					// text with a C-string terminator / trailing NULs, leading NULs
+					for j := len(v) - g.Range(1, len(v)); j < len(v); j++ {
+						v[j] = 0
+					}
+					if g.Chance(1, 3) {
+						v[0] = 0
+					}
+				}
+				p.Add(radius.Type(t), v)
 			}
 			if w, err := p.MarshalBinary(); err == nil {
 				b = w
@@ -438,6 +493,41 @@ func genC13(g *Gen, tier string, emit func(op string, args ...string)) {
 		}
 		emit("pureencode", itoa(g.Pick(1, 2, 4, 5, 11, 12, 40, 300, -1)), itoa(g.Intn(256)), hx(g.RandBytes(16)), hx(g.RandBytes(g.Pick(0, 1, 8))), showAVPs(as))
 	}
+}
+
+// wildDictionaries: three dictionaries that together give every attribute number 0..255 every attribute
+// type, with and without has_tag / encrypt / concat / size flags and with VALUEs.
+var wildDicts []*dictionary.Dictionary
+
+func wildDictionaries() []*dictionary.Dictionary {
+	if wildDicts != nil {
+		return wildDicts
+	}
+	for shift := 0; shift < 3; shift++ {
+		d := &dictionary.Dictionary{}
+		for n := 0; n < 256; n++ {
+			t := dictionary.AttributeType(1 + (n+shift*6)%17)
+			a := &dictionary.Attribute{Name: "Wild-" + itoa(shift) + "-" + itoa(n), OID: dictionary.OID{n}, Type: t}
+			switch (n/17 + shift) % 6 {
+			case 1:
+				a.FlagHasTag = dictionary.BoolFlag{Valid: true, Bool: true}
+			case 2:
+				a.FlagEncrypt = dictionary.IntFlag{Valid: true, Int: 1}
+			case 3:
+				a.FlagEncrypt = dictionary.IntFlag{Valid: true, Int: 2}
+				a.FlagHasTag = dictionary.BoolFlag{Valid: true, Bool: true}
+			case 4:
+				a.FlagConcat = dictionary.BoolFlag{Valid: true, Bool: true}
+			case 5:
+				a.Size = dictionary.IntFlag{Valid: true, Int: 4}
+			}
+			d.Attributes = append(d.Attributes, a)
+			d.Values = append(d.Values, &dictionary.Value{Attribute: a.Name, Name: "V0", Number: 0}, &dictionary.Value{Attribute: a.Name, Name: "V1", Number: 1},
+				&dictionary.Value{Attribute: a.Name, Name: "Also-1", Number: 1})
+		}
+		wildDicts = append(wildDicts, d)
+	}
+	return wildDicts
 }
 
 // ---------- C02: untrusted bytes never crash or hang the decode surface ----------
@@ -491,6 +581,12 @@ func evalC02(op string, args []string) string {
 			radius.TunnelPassword(a, secret, other)
 		}
 		debug.DumpString(&debug.Config{Dictionary: debug.IncludedDictionary}, p)
+		// the dumper is driven by whatever dictionary the caller configures: one that declares every
+		// attribute number, with every type and flag combination spread over them
+		for _, d := range wildDictionaries() {
+			debug.DumpString(&debug.Config{Dictionary: d}, p)
+			debug.Dump(io.Discard, &debug.Config{Dictionary: d}, p)
+		}
 		p.Encode()
 		p.MarshalBinary()
 		return "ok parse=ok"
